@@ -18,11 +18,19 @@ and proved under the exact extra hypothesis:
 * the rounded target size of the non-binding axis adds up to `½` px at the far border, so for
   `2 ≤ f < 3` the bound `< 1` only holds on the axis whose size is hit exactly (F-C04b);
 * `resize_image` truncates `int(n·s)` while keypoints get `s`: when scaling **down** the two
-  errors add up, offset in `((s−1)/2 − 1, (s−1)/2]`, i.e. up to 1.5 px (F-C04c).
+  errors add up, offset in `((s−1)/2 − 1, (s−1)/2]`, i.e. up to 1.5 px (F-C04b as well);
+* kornia's `RandomAffine` warps the image with `S·A·S⁻¹`, keypoints with `A`: on elongated frames
+  in-frame content can be > 1 px from its keypoint (F-C04c; `augment_offset`,
+  `augment_offset_bound_inframe`, `augment_registered_counterexample`).
+
+Theorems whose whole content is the model's definition (the correspondence carries them):
+`pad_bottom_right`, `intensity_keeps_keypoints`, `augment_same_map`, `crop_registered`,
+`recrop_registered`, `getItem_cache_unchanged` (hence `read_history_independent`).
 -/
 
 set_option linter.unusedSectionVars false
 set_option linter.unusedVariables false
+set_option linter.unusedSimpArgs false
 
 namespace SleapVerif.C04
 open SleapVerif SleapVerif.Geometry SleapVerif.Scalar
@@ -301,7 +309,7 @@ def ResizeRegisteredEverywhere (R : Type) [Field R] [LinearOrder R] [IsStrictOrd
     |((resizeContent Nat.cast n n (resizeSize n sn sd) (resizeSize n sn sd)).apply (x, x)).1
       - ((scaleKp ((sn : R) / sd)).apply (x, x)).1| < 1
 
-/-- F-C04c witness: 203 px · 0.3 = 60.9 → 60 px; blob at x = 180: content 52.85, keypoint 54. -/
+/-- F-C04b (resizer) witness: 203 px · 0.3 = 60.9 → 60 px; blob at x = 180: content 52.85, keypoint 54. -/
 theorem resize_registered_counterexample : ¬ ResizeRegisteredEverywhere Rat := by
   intro H
   have := H 203 3 10 180 (by decide) (by decide) (by decide) (by norm_num) (by norm_num)
@@ -617,5 +625,352 @@ theorem reread_registered (cache : List (St R)) (reads : List (Nat × List (Op R
   · exact (recrop_centred s c bh bw hc).1
   · exact (recrop_registered s c bh bw hc p).1
   · exact (recrop_registered s c bh bw hc p).2
+
+
+/-! ## geometric augmentation on non-square frames: exact offset, in-frame bound, counterexample -/
+
+
+/-- image centre -/
+def centre (h w : Nat) : R × R := (((w : R) - 1) / 2, ((h : R) - 1) / 2)
+
+theorem augment_offset (h w : Nat) (hh : 1 < h) (hw : 1 < w) (A : Aff R) (p : R × R) :
+    let c : R × R := centre h w
+    let t : R × R := ((A.apply c).1 - c.1, (A.apply c).2 - c.2)
+    ((warpContent Nat.cast h w A).apply p).1 - (A.apply p).1 =
+      A.b * (((w : R) / ((w : R) - 1)) / ((h : R) / ((h : R) - 1)) - 1) * (p.2 - c.2) + t.1 / ((w : R) - 1) ∧
+    ((warpContent Nat.cast h w A).apply p).2 - (A.apply p).2 =
+      A.d * (((h : R) / ((h : R) - 1)) / ((w : R) / ((w : R) - 1)) - 1) * (p.1 - c.1) + t.2 / ((h : R) - 1) := by
+  have hhR : (1 : R) < h := by exact_mod_cast hh
+  have hwR : (1 : R) < w := by exact_mod_cast hw
+  have h1 : (h : R) - 1 ≠ 0 := by linarith
+  have h2 : (w : R) - 1 ≠ 0 := by linarith
+  have h3 : (h : R) ≠ 0 := by linarith
+  have h4 : (w : R) ≠ 0 := by linarith
+  simp only [centre, warpContent, Aff.apply_comp, warpS, warpSinv, Aff.apply_axis, half]
+  simp only [Aff.apply]
+  constructor <;> field_simp <;> ring
+
+/-- scalar core of the in-frame bound -/
+theorem offset_core (D rho V T n1 Y c E U : R) (hn : 0 < n1) (hDV : D * V = Y - c - T - E * U)
+    (hY : |Y - c| ≤ c) (hU : |U| ≤ c) :
+    |D * rho * V + T / n1| ≤ |rho| * ((1 + |E|) * c + |T|) + |T| / n1 := by
+  have hc : 0 ≤ c := le_trans (abs_nonneg _) hU
+  have e1 : D * rho * V = rho * (D * V) := by ring
+  have b1 : |D * V| ≤ (1 + |E|) * c + |T| := by
+    rw [hDV]
+    have : |Y - c - T - E * U| ≤ |Y - c| + |T| + |E * U| := by
+      calc |Y - c - T - E * U| = |(Y - c) + (-T) + (-(E * U))| := by ring_nf
+        _ ≤ |(Y - c) + (-T)| + |-(E * U)| := abs_add_le _ _
+        _ ≤ |Y - c| + |-T| + |-(E * U)| := by linarith [abs_add_le (Y - c) (-T)]
+        _ = |Y - c| + |T| + |E * U| := by rw [abs_neg, abs_neg]
+    have h2 : |E * U| ≤ |E| * c := by rw [abs_mul]; exact mul_le_mul_of_nonneg_left hU (abs_nonneg _)
+    nlinarith [abs_nonneg E]
+  calc |D * rho * V + T / n1| ≤ |D * rho * V| + |T / n1| := abs_add_le _ _
+    _ = |rho| * |D * V| + |T| / n1 := by rw [e1, abs_mul, abs_div, abs_of_pos hn]
+    _ ≤ |rho| * ((1 + |E|) * c + |T|) + |T| / n1 := by
+        have := mul_le_mul_of_nonneg_left b1 (abs_nonneg rho)
+        linarith
+
+/-- **in-frame bound for the geometric augmentation** (any image shape, any affine `A`): when `p`
+and its keypoint image `A p` both lie in the frame, image content and keypoint differ by at most
+`|ρ|·((1+|A.e|)·(h−1)/2 + |t_y|) + |t_y|/(h−1)` vertically (and symmetrically horizontally), where
+`ρ = (h/(h−1))/(w/(w−1)) − 1 = (w−h)/((h−1)·w)` and `t` is how far `A` moves the image centre.
+For a square image `ρ = 0`: only the translation term `|t|/(n−1)` remains. -/
+theorem augment_offset_bound_inframe (h w : Nat) (hh : 1 < h) (hw : 1 < w) (A : Aff R) (p : R × R)
+    (px : 0 ≤ p.1 ∧ p.1 ≤ (w : R) - 1) (py : 0 ≤ p.2 ∧ p.2 ≤ (h : R) - 1)
+    (qx : 0 ≤ (A.apply p).1 ∧ (A.apply p).1 ≤ (w : R) - 1)
+    (qy : 0 ≤ (A.apply p).2 ∧ (A.apply p).2 ≤ (h : R) - 1) :
+    let c : R × R := centre h w
+    let t : R × R := ((A.apply c).1 - c.1, (A.apply c).2 - c.2)
+    |((warpContent Nat.cast h w A).apply p).1 - (A.apply p).1| ≤
+      |((w : R) / ((w : R) - 1)) / ((h : R) / ((h : R) - 1)) - 1| * ((1 + |A.a|) * (((w : R) - 1) / 2) + |t.1|)
+        + |t.1| / ((w : R) - 1) ∧
+    |((warpContent Nat.cast h w A).apply p).2 - (A.apply p).2| ≤
+      |((h : R) / ((h : R) - 1)) / ((w : R) / ((w : R) - 1)) - 1| * ((1 + |A.e|) * (((h : R) - 1) / 2) + |t.2|)
+        + |t.2| / ((h : R) - 1) := by
+  have hhR : (1 : R) < h := by exact_mod_cast hh
+  have hwR : (1 : R) < w := by exact_mod_cast hw
+  obtain ⟨ex, ey⟩ := augment_offset h w hh hw A p
+  simp only at ex ey
+  simp only
+  rw [ex, ey]
+  constructor
+  · apply offset_core (Y := (A.apply p).1) (E := A.a) (U := p.1 - (centre h w : R × R).1)
+    · linarith
+    · simp only [centre, Aff.apply]; ring
+    · rw [abs_le]; constructor <;> linarith [qx.1, qx.2]
+    · simp only [centre]; rw [abs_le]; constructor <;> linarith [px.1, px.2]
+  · apply offset_core (Y := (A.apply p).2) (E := A.e) (U := p.2 - (centre h w : R × R).2)
+    · linarith
+    · simp only [centre, Aff.apply]; ring
+    · rw [abs_le]; constructor <;> linarith [qy.1, qy.2]
+    · simp only [centre]; rw [abs_le]; constructor <;> linarith [py.1, py.2]
+
+/-- the shape factor in closed form -/
+theorem shape_factor (h w : Nat) (hh : 1 < h) (hw : 1 < w) :
+    ((h : R) / ((h : R) - 1)) / ((w : R) / ((w : R) - 1)) - 1 = ((w : R) - h) / (((h : R) - 1) * w) := by
+  have hhR : (1 : R) < h := by exact_mod_cast hh
+  have hwR : (1 : R) < w := by exact_mod_cast hw
+  have h1 : (h : R) - 1 ≠ 0 := by linarith
+  have h2 : (w : R) - 1 ≠ 0 := by linarith
+  have h3 : (h : R) ≠ 0 := by linarith
+  have h4 : (w : R) ≠ 0 := by linarith
+  field_simp
+  ring
+
+/-- Full-strength statement for the geometric augmentation: in-frame content within one pixel of
+the keypoint for every affine map.  **False** of kornia's warp on elongated frames (F-C04c). -/
+def AugmentRegisteredInFrame (R : Type) [Field R] [LinearOrder R] [IsStrictOrderedRing R] : Prop :=
+  ∀ (h w : Nat) (A : Aff R) (p : R × R), 1 < h → 1 < w →
+    0 ≤ p.1 → p.1 ≤ (w : R) - 1 → 0 ≤ p.2 → p.2 ≤ (h : R) - 1 →
+    0 ≤ (A.apply p).1 → (A.apply p).1 ≤ (w : R) - 1 → 0 ≤ (A.apply p).2 → (A.apply p).2 ≤ (h : R) - 1 →
+    |((warpContent Nat.cast h w A).apply p).2 - (A.apply p).2| < 1
+
+/-- F-C04c witness: 24×240 frame, rotation by the (40, 9, 41) angle (≈ 12.7°) with zoom 1.3 about
+the centre, point (210.5, 0) ↦ keypoint (238.2…, 22.5…) (both in frame): the image content is
+1.016 px below the keypoint. -/
+theorem augment_registered_counterexample : ¬ AugmentRegisteredInFrame Rat := by
+  intro H
+  have := H 24 240 ⟨13 / 10 * (40 / 41), -(13 / 10 * (9 / 41)), 239 / 2 - 13 / 10 * (40 / 41) * (239 / 2) + 13 / 10 * (9 / 41) * (23 / 2),
+      13 / 10 * (9 / 41), 13 / 10 * (40 / 41), 23 / 2 - 13 / 10 * (9 / 41) * (239 / 2) - 13 / 10 * (40 / 41) * (23 / 2)⟩
+    (421 / 2, 0) (by decide) (by decide) (by norm_num) (by norm_num) (by norm_num) (by norm_num)
+    (by simp only [Aff.apply]; norm_num) (by simp only [Aff.apply]; norm_num)
+    (by simp only [Aff.apply]; norm_num) (by simp only [Aff.apply]; norm_num)
+  simp only [warpContent, Aff.apply_comp, warpS, warpSinv, Aff.apply_axis, half] at this
+  simp only [Aff.apply] at this
+  rw [abs_lt] at this
+  norm_num at this
+
+
+example : (warpContent (R := Rat) Nat.cast 5 5 ⟨0, -1, 4, 1, 0, 0⟩).apply (1, 3) =
+    (⟨0, -1, 4, 1, 0, 0⟩ : Aff Rat).apply (1, 3) :=
+  augment_registered_square 5 (by decide) _ _ (by simp [Aff.apply]; norm_num)
+
+/-! ## end-to-end chains of the four Dataset classes (theorems about `run`) -/
+
+
+/-- registration offset (content − keypoint) of a state at input point `p` -/
+def offset (st : St R) (p : R × R) : R × R :=
+  ((st.content.apply p).1 - (st.kp.apply p).1, (st.content.apply p).2 - (st.kp.apply p).2)
+
+theorem run_snoc (h w : Nat) (pre : List (Op R)) (op : Op R) :
+    run Nat.cast h w (pre ++ [op]) = step Nat.cast (run Nat.cast h w pre) op := by
+  simp [run, List.foldl_append]
+
+theorem run_append (h w : Nat) (pre post : List (Op R)) :
+    run Nat.cast h w (pre ++ post) = post.foldl (step Nat.cast) (run Nat.cast h w pre) := by
+  simp [run, List.foldl_append]
+
+/-- stride pad, intensity augmentation, crop and re-crop leave the offset as it is -/
+theorem offset_pad (st : St R) (s : Nat) (p : R × R) :
+    offset (step Nat.cast st (.pad s)) p = offset st p := rfl
+
+theorem offset_intensity (st : St R) (p : R × R) :
+    offset (step Nat.cast st .intensity) p = offset st p := rfl
+
+theorem offset_crop (st : St R) (c0 : R × R) (bh bw : Nat) (p : R × R) :
+    offset (step Nat.cast st (.cropAbout c0 bh bw)) p = offset st p := by
+  obtain ⟨_, _, a, b⟩ := crop_registered st c0 bh bw p
+  exact Prod.ext a b
+
+theorem offset_recrop (st : St R) (bh bw : Nat) (p : R × R) :
+    offset (step Nat.cast st (.recrop bh bw)) p = offset st p := by
+  cases hc : st.centroid with
+  | none => simp [step, hc]
+  | some c =>
+    obtain ⟨a, b⟩ := recrop_registered st c bh bw hc p
+    exact Prod.ext a b
+
+/-- what the **resizer** does to an existing offset `δ`: scales it by `s` and adds its own
+axis offset taken at the content position `q` -/
+theorem offset_resize (st : St R) (sn sd : Nat) (hne : sn ≠ sd) (p : R × R) :
+    let q := st.content.apply p
+    let s : R := (sn : R) / sd
+    let rx : R := ((resizeSize st.w sn sd : Nat) : R) / st.w
+    let ry : R := ((resizeSize st.h sn sd : Nat) : R) / st.h
+    offset (step Nat.cast st (.resize sn sd)) p =
+      ((rx * q.1 + (rx - 1) / 2 - s * q.1) + s * (offset st p).1,
+       (ry * q.2 + (ry - 1) / 2 - s * q.2) + s * (offset st p).2) := by
+  simp only [offset, step, if_pos hne, Aff.apply_comp, resizeContent, scaleKp, Aff.apply_axis]
+  refine Prod.ext ?_ ?_ <;> simp only <;> ring
+
+/-- what the **geometric augmentation** does to an existing offset `δ`: the linear part of `A`
+acts on it, and the warp's own offset (`augment_offset`, `augment_offset_bound_inframe`) at the
+content position `q` is added.  With `align_corners=True` only the linear part remains. -/
+theorem offset_aug (st : St R) (A : Aff R) (p : R × R) :
+    let q := st.content.apply p
+    let δ := offset st p
+    offset (step Nat.cast st (.aug A)) p =
+      (((warpContent Nat.cast st.h st.w A).apply q).1 - (A.apply q).1 + (A.a * δ.1 + A.b * δ.2),
+       ((warpContent Nat.cast st.h st.w A).apply q).2 - (A.apply q).2 + (A.d * δ.1 + A.e * δ.2)) ∧
+    offset (step Nat.cast st (.augAligned A)) p = (A.a * δ.1 + A.b * δ.2, A.d * δ.1 + A.e * δ.2) := by
+  constructor
+  · simp only [offset, step, Aff.apply_comp]
+    simp only [Aff.apply]
+    refine Prod.ext ?_ ?_ <;> simp only <;> ring
+  · simp only [offset, step, St.both, Aff.apply_comp]
+    simp only [Aff.apply]
+    refine Prod.ext ?_ ?_ <;> simp only <;> ring
+
+/-- sizes: crop, re-crop and pad -/
+theorem size_after_pad (st : St R) (s : Nat) :
+    ((step Nat.cast st (.pad s)).h, (step Nat.cast st (.pad s)).w) = padToStrideSize st.h st.w s := rfl
+
+theorem centroid_after_crop (st : St R) (c0 : R × R) (oh ow : Nat) :
+    (step Nat.cast st (.cropAbout c0 oh ow)).centroid = some (((ow : R) - 1) / 2, ((oh : R) - 1) / 2) := by
+  simp only [step, St.both, bboxTopLeft, half]
+  congr 1; refine Prod.ext ?_ ?_ <;> simp only <;> ring
+
+/-- **CenteredInstanceDataset chain, end to end** (`pre` = size matcher and resizer, then
+over-crop about the centroid, intensity augmentation, re-crop, stride pad): final size is the crop
+size padded to the stride, the centroid is returned at the crop centre, and the registration offset
+is the one after `pre` — cropping, re-cropping and padding add nothing. -/
+theorem centered_chain (h w : Nat) (pre : List (Op R)) (c0 : R × R) (oh ow bh bw st : Nat)
+    (hst : 0 < st) (p : R × R) :
+    let s0 := run Nat.cast h w pre
+    let s := run Nat.cast h w (pre ++ [.cropAbout c0 oh ow, .intensity, .recrop bh bw, .pad st])
+    (s.h, s.w) = padToStrideSize bh bw st ∧ s.h % st = 0 ∧ s.w % st = 0 ∧
+    bh ≤ s.h ∧ s.h < bh + st ∧ bw ≤ s.w ∧ s.w < bw + st ∧
+    s.centroid = some (((bw : R) - 1) / 2, ((bh : R) - 1) / 2) ∧
+    offset s p = offset s0 p := by
+  intro s0 s
+  let s1 := step Nat.cast s0 (.cropAbout c0 oh ow)
+  let s2 := step Nat.cast s1 .intensity
+  let s3 := step Nat.cast s2 (.recrop bh bw)
+  have hs : s = step Nat.cast s3 (.pad st) := by
+    simp only [s, s0, s1, s2, s3, run_append, List.foldl]
+  have hc2 : s2.centroid = some (((ow : R) - 1) / 2, ((oh : R) - 1) / 2) := centroid_after_crop s0 c0 oh ow
+  obtain ⟨c3, h3, w3, _⟩ := recrop_centred s2 _ bh bw hc2
+  have hsz : (s.h, s.w) = padToStrideSize bh bw st := by
+    rw [hs, size_after_pad]; show padToStrideSize s3.h s3.w st = _; rw [h3, w3]
+  obtain ⟨m1, m2, b1, b2, b3, b4⟩ := pad_size_multiple bh bw st hst
+  have eh : s.h = (padToStrideSize bh bw st).1 := congrArg Prod.fst hsz
+  have ew : s.w = (padToStrideSize bh bw st).2 := congrArg Prod.snd hsz
+  refine ⟨hsz, by rw [eh]; exact m1, by rw [ew]; exact m2, by rw [eh]; exact b1, by rw [eh]; exact b2,
+    by rw [ew]; exact b3, by rw [ew]; exact b4, ?_, ?_⟩
+  · rw [hs]; exact c3
+  · rw [hs, offset_pad]
+    show offset s3 p = _
+    rw [show s3 = step Nat.cast s2 (.recrop bh bw) from rfl, offset_recrop,
+      show s2 = step Nat.cast s1 .intensity from rfl, offset_intensity,
+      show s1 = step Nat.cast s0 (.cropAbout c0 oh ow) from rfl, offset_crop]
+
+/-- **BottomUp / SingleInstance / Centroid chain, end to end** (`pre` = size matcher and resizer,
+then stride pad and intensity augmentation): final size is the resized size padded to the stride
+(a multiple of it, less than one stride larger), offset as after `pre`. -/
+theorem base_chain (h w : Nat) (pre : List (Op R)) (st : Nat) (hst : 0 < st) (p : R × R) :
+    let s0 := run Nat.cast h w pre
+    let s := run Nat.cast h w (pre ++ [.pad st, .intensity])
+    (s.h, s.w) = padToStrideSize s0.h s0.w st ∧ s.h % st = 0 ∧ s.w % st = 0 ∧
+    s0.h ≤ s.h ∧ s.h < s0.h + st ∧ s0.w ≤ s.w ∧ s.w < s0.w + st ∧
+    offset s p = offset s0 p := by
+  intro s0 s
+  have hs : s = step Nat.cast (step Nat.cast s0 (.pad st)) .intensity := by
+    simp only [s, s0, run_append, List.foldl]
+  have hsz : (s.h, s.w) = padToStrideSize s0.h s0.w st := by rw [hs]; rfl
+  obtain ⟨m1, m2, b1, b2, b3, b4⟩ := pad_size_multiple s0.h s0.w st hst
+  have eh : s.h = (padToStrideSize s0.h s0.w st).1 := congrArg Prod.fst hsz
+  have ew : s.w = (padToStrideSize s0.h s0.w st).2 := congrArg Prod.snd hsz
+  refine ⟨hsz, by rw [eh]; exact m1, by rw [ew]; exact m2, by rw [eh]; exact b1, by rw [eh]; exact b2,
+    by rw [ew]; exact b3, by rw [ew]; exact b4, ?_⟩
+  rw [hs, offset_intensity, offset_pad]
+
+/-- **offset after size matcher + resizer with inexact integer targets** (x axis; y alike): for a
+pixel centre inside the frame, `|offset| ≤ (|s−1|/2 + 1) + s·(|eff−1|/2 + ½)` — the resizer's own
+half-pixel term and truncation (`< 1`), plus `s` times the size matcher's half-pixel term and
+rounding (`≤ ½`).  With exact targets this collapses to `chain_offset_exact`. -/
+theorem sm_rs_offset_bound (h w mh mw sn sd : Nat) (p : R × R) (hh : 0 < h) (hw : 0 < w)
+    (hmw : 0 < mw) (hne : h ≠ mh ∨ w ≠ mw) (hs : sn ≠ sd) (hsd : 0 < sd)
+    (hx0 : -(1 / 2) ≤ p.1) (hx1 : p.1 ≤ (w : R) - 1 / 2) :
+    let o := sizematch h w (some mh) (some mw)
+    let eff : R := (o.effN : R) / o.effD
+    let s : R := (sn : R) / sd
+    |(offset (run Nat.cast h w [.sizematch (some mh) (some mw), .resize sn sd]) p).1| ≤
+      (|s - 1| / 2 + 1) + s * (|eff - 1| / 2 + 1 / 2) := by
+  intro o eff s
+  obtain ⟨hap, hrel⟩ := sizematch_rel (R := R) h w mh mw hh hw hne
+  have hwR : (0 : R) < w := by exact_mod_cast hw
+  have hs0 : 0 ≤ s := div_nonneg (Nat.cast_nonneg _) (Nat.cast_nonneg _)
+  -- state after the size matcher
+  let s1 := step Nat.cast (St.init (R := R) h w) (.sizematch (some mh) (some mw))
+  have hrun : run Nat.cast h w [.sizematch (some mh) (some mw), .resize sn sd] =
+      step Nat.cast s1 (.resize sn sd) := by simp only [run, List.foldl, s1]
+  have hw1 : s1.w = mw := by simp only [s1, step, St.init, hap, if_true, Option.getD_some]
+  have hq : (s1.content.apply p).1 = ((o.tw : R) / w) * p.1 + ((o.tw : R) / w - 1) / 2 := by
+    simp only [s1, step, hap, if_true, St.init, Aff.apply_comp, Aff.apply_ident, resizeContent,
+      Aff.apply_axis, o]
+  have hk : (s1.kp.apply p).1 = eff * p.1 := by
+    simp only [s1, step, hap, if_true, St.init, Aff.apply_comp, Aff.apply_ident, scaleKp,
+      Aff.apply_axis, o, eff, add_zero]
+  have hδ : |(offset s1 p).1| ≤ |eff - 1| / 2 + 1 / 2 := by
+    simp only [offset, hq, hk]
+    exact axis_offset_bound w hw (o.tw : R) eff p.1 _ hrel.tw_round hx0 hx1
+  -- content position stays inside the (padded) frame
+  have htw := (sizematch_exact_size (R := R) h w mh mw o.th o.tw eff hh hw hrel).2.1
+  have htwR : ((o.tw : Nat) : R) ≤ mw := by exact_mod_cast htw
+  have hr0 : 0 ≤ (o.tw : R) / w := div_nonneg (Nat.cast_nonneg _) hwR.le
+  have hq0 : -(1 / 2) ≤ (s1.content.apply p).1 := by
+    rw [hq]; nlinarith
+  have hq1 : (s1.content.apply p).1 ≤ (mw : R) - 1 / 2 := by
+    rw [hq]
+    have : (o.tw : R) / w * (p.1 + 1 / 2) ≤ (o.tw : R) / w * w := mul_le_mul_of_nonneg_left (by linarith) hr0
+    have e : (o.tw : R) / w * w = o.tw := by field_simp
+    nlinarith
+  obtain ⟨f1, f2⟩ := resizeSize_floor (R := R) mw sn sd hsd
+  have hrs : |((resizeSize mw sn sd : Nat) : R) - (mw : R) * s| ≤ 1 := by
+    rw [abs_le]; constructor <;> linarith
+  have hb := axis_offset_bound mw hmw ((resizeSize mw sn sd : Nat) : R) s (s1.content.apply p).1 1 hrs hq0 hq1
+  rw [hrun]
+  have ho := offset_resize s1 sn sd hs p
+  simp only at ho
+  rw [ho, hw1]
+  calc _ ≤ |(((resizeSize mw sn sd : Nat) : R) / mw) * (s1.content.apply p).1 +
+            ((((resizeSize mw sn sd : Nat) : R) / mw) - 1) / 2 - s * (s1.content.apply p).1| +
+            |s * (offset s1 p).1| := abs_add_le _ _
+    _ ≤ (|s - 1| / 2 + 1) + s * (|eff - 1| / 2 + 1 / 2) := by
+        rw [abs_mul, abs_of_nonneg hs0]
+        have := mul_le_mul_of_nonneg_left hδ hs0
+        linarith
+
+
+/-- hypotheses of `recrop_centred` / `recrop_registered` / `reread_registered` are met by a real
+chain: a 40×40 frame over-cropped to 22×22 about (20, 20), read twice -/
+example : True := by
+  have h := reread_registered (R := Rat) [run Nat.cast 40 40 [.cropAbout (20, 20) 22 22]]
+    [(0, [.recrop 16 16, .pad 16]), (0, [.recrop 16 16, .pad 16])] 1 0 16 16 16 rfl
+    (run Nat.cast 40 40 [.cropAbout (20, 20) 22 22]) rfl (21/2, 21/2)
+    (by simp [run, step, St.init, St.both, bboxTopLeft, half, Aff.apply, Aff.ident]; norm_num) (3, 4)
+  trivial
+
+/-! ## size matcher with `None` arguments, crop size on empty labels -/
+
+/-- `max_height=None` / `max_width=None` mean "this frame's own size": every size-matcher theorem
+above (stated for `some`, `some`) applies with `mh := mh?.getD h`, `mw := mw?.getD w`. -/
+theorem sizematch_option (h w : Nat) (mh? mw? : Option Nat) :
+    sizematch h w mh? mw? = sizematch h w (some (mh?.getD h)) (some (mw?.getD w)) ∧
+    sizematchOutSize h w mh? mw? = sizematchOutSize h w (some (mh?.getD h)) (some (mw?.getD w)) := by
+  cases mh? <;> cases mw? <;> simp [sizematch, sizematchOutSize]
+
+/-- … in particular the output size is exactly `(mh?.getD h, mw?.getD w)` -/
+theorem sizematch_out_size_option (h w : Nat) (mh? mw? : Option Nat) (hh : 0 < h) (hw : 0 < w) :
+    sizematchOutSize h w mh? mw? = (((mh?.getD h : Nat) : Int), ((mw?.getD w : Nat) : Int)) := by
+  rw [(sizematch_option h w mh? mw?).2]; exact sizematch_out_size h w _ _ hh hw
+
+/-- **crop size on labels without any instance** (not covered by `cropsize_multiple_and_covers`,
+whose `≥ min crop` clause is per instance): the loop body never runs, so unless the user's size
+is returned early the result is `ceil(padding/stride)·stride` — the requested minimum is ignored. -/
+theorem cropsize_empty (ceil : R → Int) (padding stride : Int) (scaling : R) (minCrop? : Option Int)
+    (hne : ¬ (minCrop?.getD 0 > 0 ∧ Int.fmod (minCrop?.getD 0) stride = 0)) :
+    findCropSize ceil (fun i => (i : R)) [] padding stride scaling minCrop? =
+      ceil ((0 + (padding : R)) / (stride : R)) * stride := by
+  simp only [findCropSize, if_neg hne, List.foldl]
+
+/-- the docstring's "≥ min_crop_size" fails there: no instances, `min_crop_size = 100`, stride 16
+(100 is not a multiple of 16) gives 0.  The harness generates this case and the real function
+returns 0 as well; labels without instances are outside C04's quantifier (assumption, not finding). -/
+theorem cropsize_empty_below_min :
+    findCropSize Rat.ceil (fun i => (i : Rat)) [] 0 16 1 (some 100) = 0 := by
+  rw [cropsize_empty (R := Rat) Rat.ceil 0 16 1 (some 100) (by decide)]
+  norm_num [Rat.ceil]
 
 end SleapVerif.C04
